@@ -16,11 +16,11 @@ ASA_FAMS = {"F9": {"MaxLen": 2}, "F1L": {"MaxLen": 5}, "F1": {"MaxLen": 3}, "F2"
 
 PLAN = {
     "C04": dict(mode="conv", tags={"EQUIV", "FIXPOINT"},
-                quick=[("nsx", "N1", 6000), ("nsx", "N2", None), ("nsx", "N3", None)],
-                thorough=[("nsx", "N1", None), ("nsx", "N2", None), ("nsx", "N3", None)]),
+                quick=[("nsx", "N1", 6000), ("nsx", "N2", None), ("nsx", "N3", None), ("nsx", "N4", 4000)],
+                thorough=[("nsx", "N1", None), ("nsx", "N2", None), ("nsx", "N3", None), ("nsx", "N4", None)]),
     "C03": dict(mode="conv", tags={"EQUIV", "FIXPOINT"},
-                quick=[("panos", "P1", None), ("panos", "P2", None), ("panos", "P3", None), ("panos", "P7", None)],
-                thorough=[("panos", "P1", None), ("panos", "P2", None), ("panos", "P3", None), ("panos", "P7", None)]),
+                quick=[("panos", "P1", None), ("panos", "P2", None), ("panos", "P3", None), ("panos", "P7", None), ("panos", "P4", None)],
+                thorough=[("panos", "P1", None), ("panos", "P2", None), ("panos", "P3", None), ("panos", "P7", None), ("panos", "P4", None)]),
     "C05": dict(mode="conv", tags={"EQUIV", "FIXPOINT", "C08"},
                 quick=[("linux", "R1", None), ("linux", "I1", 6000), ("linux", "I2", None), ("linux", "I3", None)],
                 thorough=[("linux", "R1", None), ("linux", "I1", None), ("linux", "I2", None), ("linux", "I3", None)]),
@@ -31,7 +31,7 @@ PLAN = {
                           ("asa", "M2L", None), ("ios", "M2L", None), ("panos", "M2", None), ("nsx", "M2", None)]),
     "C16": dict(mode="det", tags={"C16"}, spec="DetTrace", level="exploration",
                 quick=[("asa", "F9", 5000), ("asa", "F2", 2000), ("asa", "F7", 1000), ("ios", "F8", 1000),
-                       ("ios", "F3", 1000), ("ios", "V1L", 800), ("panos", "P2", 1500), ("linux", "I1", 500), ("nsx", "N1", 1500), ("nsx", "N3", None),
+                       ("ios", "F3", 1000), ("ios", "V1L", 800), ("panos", "P2", 1500), ("panos", "P4", 1200), ("linux", "I1", 500), ("nsx", "N1", 1500), ("nsx", "N3", None),
                        ("asav", "F5", 800), ("asav", "F6L", 480)],
                 thorough=[("asa", "F9", None), ("asa", "F2", 30000), ("asa", "F7", 10000), ("asa", "F3", 5000),
                           ("ios", "F8", 20000), ("ios", "F3", 10000), ("ios", "F7", 5000)]),
@@ -88,8 +88,8 @@ ASA_FAMS["M1"] = {"MaxLen": 3}
 IOS_FAMS["M1"] = {"MaxLen": 3}
 ASA_FAMS["M2L"] = {"MaxLen": 3}
 IOS_FAMS["M2L"] = {"MaxLen": 3}
-PANOS_FAMS = {"M2": {"MaxLen": 3}, "M1": {"MaxLen": 3}, "P1": {"MaxLen": 3}, "P2": {"MaxLen": 2}, "P3": {"MaxLen": 2}, "P7": {"MaxLen": 2}}
-NSX_FAMS = {"M2": {"MaxLen": 3}, "M1": {"MaxLen": 3}, "N1": {"MaxLen": 3}, "N2": {"MaxLen": 2}, "N3": {"MaxLen": 3}}
+PANOS_FAMS = {"P4": {"MaxLen": 2}, "M2": {"MaxLen": 3}, "M1": {"MaxLen": 3}, "P1": {"MaxLen": 3}, "P2": {"MaxLen": 2}, "P3": {"MaxLen": 2}, "P7": {"MaxLen": 2}}
+NSX_FAMS = {"N4": {"MaxLen": 3}, "M2": {"MaxLen": 3}, "M1": {"MaxLen": 3}, "N1": {"MaxLen": 3}, "N2": {"MaxLen": 2}, "N3": {"MaxLen": 3}}
 FAM_CONSTS = {"asav": {"F5": {"MaxLen": 3}, "F6L": {"MaxLen": 3}}, "asa": ASA_FAMS, "ios": IOS_FAMS, "linux": LINUX_FAMS, "panos": PANOS_FAMS, "nsx": NSX_FAMS}
 
 
